@@ -440,6 +440,8 @@ class Inst:
         if s is True or s == {}:
             return self.pick([1, "x", None, [1], {"k": 1}])
         minimal = minimal or depth > 5
+        if depth > 40:
+            return None     # unproductive recursion (e.g. anyOf [$ref self, …]); the oracle has the last word
         if "$ref" in s:
             return self.gen(self.doc["definitions"][s["$ref"].split("/")[-1]], depth + 1, minimal)
         if "enum" in s:
